@@ -46,7 +46,8 @@ def run(eng, tier):
             eng.ob(got == want, PROP, 'dispatch', v + ':returns-the-stored-record', '%s returns %s, expected to_binary(record stored in "%s" under %s)' % (v, K(got)[:160], ns, 'the request id' if idf else 'the item'),
                    sample={'rule': 'dispatch', 'query': v, 'returns': K(got)[:100]})
             rd = [e for e in p.e['effects'] if e[0] == 'read']
-            eng.ob(len(rd) == 1 and rd[0][3] == 'load', PROP, 'dispatch', v + ':missing-is-error', '%s does not use a failing load (a missing key must be an error)' % v)
+            okb = any(all(p.pos(f) is not None for f in alt) for alt in on_book_facts(ns, key))
+            eng.ob(len(rd) == 1 and okb, PROP, 'dispatch', v + ':missing-is-error', '%s succeeds without establishing that the key is present (a missing key must be an error)' % v)
             if rd and isinstance(rd[0][4], tuple) and len(rd[0][4]) > 5 and ns in exec_types:
                 ty = rd[0][4][5][-1]
                 eng.ob(ty in exec_types[ns], PROP, 'reader-writer-agree', v, '%s decodes "%s" as %s but the state-changing paths use %s' % (v, ns, ty, sorted(exec_types[ns])))
@@ -64,7 +65,7 @@ def run(eng, tier):
     refs = Refusals(eng, 'query')
     for v, (ns, idf) in TABLE.items():
         T = [('id-not-a-uuid', 'L', lambda e, v=v, idf=idf: idf is not None and e['fact'] == ('is', ('uuid_parse', M(v, idf)), 'Err')),
-             ('not-on-book', 'L', lambda e, ns=ns: is_storage_load_err(e['fact'], ns))]
+             ('not-on-book', 'L', lambda e, ns=ns, v=v, idf=idf: is_storage_load_err(e['fact'], ns) or is_not_on_book(e['fact'], ns, M(v, idf) if idf else None))]
         check_table(eng, PROP, refs, v, T, [], 'a query')
     return {
         'explanation': 'R-type: the discovered `query` entry point takes cosmwasm_std::Deps (immutable storage) and the crate has no unsafe fn, static mut or interior-mutable static; R-write: no write effect or message on any path of `query`; R-dispatch/R-origin: each QueryMsg variant reads only its namespace with a failing load keyed by the raw request id and returns to_binary of exactly that record, decoded with the type the state-changing paths use; ids only need to parse as UUID. '
